@@ -919,8 +919,9 @@ impl CodeGen {
                         if let Some(reg0) = Reg::tmp(tmp0) {
                             self.emit_mul_r64_rm64(reg0, self.tmp_param(tmp2));
                         } else {
-                            self.emit_mov_r64_rm64(Reg::scr0(), self.tmp_param(tmp2));
-                            self.emit_add_rm64_r64(self.tmp_param(tmp0), Reg::scr0());
+                            self.emit_mov_r64_rm64(Reg::scr0(), self.tmp_param(tmp0));
+                            self.emit_mul_r64_rm64(Reg::scr0(), self.tmp_param(tmp2));
+                            self.emit_mov_rm64_r64(self.tmp_param(tmp0), Reg::scr0());
                         }
                     } else {
                         match (Reg::tmp(tmp0), Reg::tmp(tmp1), Reg::tmp(tmp2)) {
